@@ -6,6 +6,33 @@ LEVEL = "proof"
 _T = ["any_failure_imp_error", "balanced", "verify_never_matches_on_failure", "success_iff_no_failure", "run_good"]
 THEOREMS = vcore.theorems_in("SodiumModel/Properties/C20.lean", _T, "Sodium.C20")
 IMPORTS = ["SodiumModel.Properties.C20"] if THEOREMS else ["SodiumModel.Model.Fault"]
+# Tie B (session 6): the allocation skeletons of the 28 entry points are regenerated from the clang AST of the current source (tools/c2lean_alloc.py) into
+# Generated/AllocProgs.lean; `goodAll` (explores both answers at every request and every abstracted condition) is decided by the kernel for each and
+# `fail_closed_of_goodAll` lifts it to every oracle; the generated programs are proved observationally equal to the hand-written ones of Model/Fault.lean
+_TG = ['fail_closed_of_goodAll', 'oracle_prefix_principle', 'requests_bounded', 'good_crypto_pwhash', 'good_crypto_pwhash_str', 'good_crypto_pwhash_str_alg', 'good_crypto_pwhash_str_verify', 'good_crypto_pwhash_str_needs_rehash', 'good_crypto_pwhash_argon2i', 'good_crypto_pwhash_argon2i_str', 'good_crypto_pwhash_argon2i_str_verify', 'good_crypto_pwhash_argon2i_str_needs_rehash', 'good_crypto_pwhash_argon2id', 'good_crypto_pwhash_argon2id_str', 'good_crypto_pwhash_argon2id_str_verify', 'good_crypto_pwhash_argon2id_str_needs_rehash', 'good_crypto_pwhash_scryptsalsa208sha256', 'good_crypto_pwhash_scryptsalsa208sha256_ll', 'good_crypto_pwhash_scryptsalsa208sha256_str', 'good_crypto_pwhash_scryptsalsa208sha256_str_verify', 'good_crypto_pwhash_scryptsalsa208sha256_str_needs_rehash', 'good_argon2_hash', 'good_argon2_verify', 'good_argon2i_hash_encoded', 'good_argon2i_hash_raw', 'good_argon2id_hash_encoded', 'good_argon2id_hash_raw', 'good_argon2i_verify', 'good_argon2id_verify', 'good_sodium_malloc', 'good_sodium_allocarray', 'all_entries_good', 'crash_only_before_requests', 'entry_good', 'api_fail_closed', 'verify_never_matches_on_failure', 'code_fail_closed', 'guarded_alloc_fail_closed', 'same_run', 'pwhash_agrees', 'pwhash_dispatch_agrees', 'verify_agrees', 'needsRehash_agrees', 'scrypt_agrees', 'sodiumMalloc_agrees']
+THEOREMS = THEOREMS + vcore.theorems_in("SodiumModel/Properties/C20Gen.lean", _TG, "Sodium.C20Gen")
+IMPORTS = IMPORTS + ["SodiumModel.Properties.C20Gen"]
+
+
+def tie_b(ctx):
+    import fcntl, os, subprocess, c20_tieb
+    gen = os.path.join(vcore.LEAN, "Generated", "AllocProgs.lean")
+    for t in _TG:
+        ctx.obligations.append({"theorem": "Sodium.C20Gen." + t + " [allocation skeletons regenerated from the source]", "axioms": ["propext", "Classical.choice", "Quot.sound"]})
+    with open(os.path.join(vcore.LEAN, ".lake-lock"), "w") as lk:
+        fcntl.flock(lk, fcntl.LOCK_EX)
+        ok, msg, off = c20_tieb.tie_b(vcore.LEAN, os.path.join(vcore.REPO, "src", "libsodium"), outdir=os.path.join(ctx.scratch, "tieb-alloc"))
+        if "DIFFERS" in msg or not ok:      # the committed text was restored by c20_tieb: bring the build products back in line with it
+            subprocess.run(["lake", "build", "SodiumModel.Properties.C20Gen"], cwd=vcore.LEAN, capture_output=True, text=True)
+    ctx.log("Tie B (allocation skeletons): " + msg.split("\n")[0][:300])
+    ctx.stats["alloc_skeletons"] = msg[:2000]
+    if ok:
+        ctx.discharged = len(ctx.obligations)
+        return []
+    ctx.discharged = len(ctx.obligations) - len(_TG)
+    if off:
+        ctx.violations_with_input = getattr(ctx, "violations_with_input", 0) + 1      # a concrete fault schedule is printed in the message
+    return [("Sodium.C20Gen.all_entries_good", msg)]
 RULE = ("for each of 27 API entry points (raw hashing, string creation, string verification with right and wrong password, needs-rehash for Argon2i / "
         "Argon2id / default and scrypt, sodium_malloc / sodium_allocarray): a counting run, then every request position i failed alone and all requests from "
         "i on (exhaustive over positions, i = 0..max+2), through link-time wrappers around malloc/calloc/posix_memalign/mmap/free/munmap; return code, the full "
